@@ -203,6 +203,8 @@ fn ref_key(uri: &str, version: i64, text: &str, k: u64) -> String {
 }
 
 struct C29Stats {
+    /// publish-order signature of the run checked last
+    last_sig: String,
     uri_checks: u64,
     prefix_checks: u64,
     reference_crash: u64,
@@ -235,6 +237,7 @@ fn check_c29(spec: &Value, rec: &Value, refs: &BTreeMap<String, Value>, stats: O
 
     // probes / signatures
     let mut local = C29Stats {
+        last_sig: String::new(),
         uri_checks: 0,
         prefix_checks: 0,
         reference_crash: 0,
@@ -308,6 +311,7 @@ fn check_c29(spec: &Value, rec: &Value, refs: &BTreeMap<String, Value>, stats: O
         }
     }
     local.signatures.insert(sig.clone());
+    local.last_sig = sig.clone();
     if nontrivial {
         local.nontrivial_signatures.insert(sig);
     }
@@ -385,6 +389,7 @@ fn check_c29(spec: &Value, rec: &Value, refs: &BTreeMap<String, Value>, stats: O
         }
     }
     if let Some(s) = stats {
+        s.last_sig = local.last_sig.clone();
         s.uri_checks += local.uri_checks;
         s.prefix_checks += local.prefix_checks;
         s.reference_crash += local.reference_crash;
@@ -959,6 +964,7 @@ fn run_batch(ctx: &Ctx, tier: Tier, corpus: &Corpus, emit_log: Option<&Path>) ->
             refs.insert(k, r);
         }
         let mut st = C29Stats {
+            last_sig: String::new(),
             uri_checks: 0,
             prefix_checks: 0,
             reference_crash: 0,
@@ -972,6 +978,8 @@ fn run_batch(ctx: &Ctx, tier: Tier, corpus: &Corpus, emit_log: Option<&Path>) ->
             signatures: BTreeSet::new(),
             nontrivial_signatures: BTreeSet::new(),
         };
+        let mut short_sigs: BTreeSet<String> = BTreeSet::new();
+        let (mut short_runs, mut short_new_in_second_half) = (0u64, 0u64);
         for (i, (s, r)) in specs.iter().zip(recs.iter()).enumerate() {
             if r.get("harness_error").is_some() || r["watchdog"].as_bool() == Some(true) {
                 continue;
@@ -979,7 +987,22 @@ fn run_batch(ctx: &Ctx, tier: Tier, corpus: &Corpus, emit_log: Option<&Path>) ->
             for f in check_c29(s, r, &refs, Some(&mut st)) {
                 all.push((i, f));
             }
+            // saturation measure: signatures (incl. the op kinds) of histories with at most 3 ops
+            let ops = s["ops"].as_array().map(|a| a.len()).unwrap_or(0);
+            if ops <= 3 {
+                short_runs += 1;
+                let kinds: String = s["ops"].as_array().into_iter().flatten().map(|o| o["t"].as_str().unwrap_or("?").chars().next().unwrap_or('?')).collect();
+                let key = format!("{kinds}|{}", st.last_sig);
+                if short_sigs.insert(key) && i >= specs.len() / 2 {
+                    short_new_in_second_half += 1;
+                }
+            }
         }
+        ev.set("saturation_short_histories", json!({
+            "histories_with_at_most_3_ops": short_runs,
+            "distinct_(op kinds, publish-order signature)": short_sigs.len(),
+            "first_seen_in_second_half_of_batch": short_new_in_second_half,
+        }));
         ev.evaluations = st.uri_checks;
         ev.distinct_nontrivial = st.nontrivial_signatures.len() as u64;
         ev.rule = "one evaluation = one per-document check 'last published diagnostics == diagnostics of a single-edit reference run of the final text, tagged with the final version' after quiescence of a simulated history - at its end and at every intermediate point of the run at which all analyses started so far had finished before the next message was handled (such a point is the end of a complete run of the prefix; counted in probes.intermediate_quiescent_point_checks) - (1-3 documents, up to 8/12 open/change notifications, seeded thread schedule of the real main loop and analysis threads). distinct_nontrivial = distinct publish-order signatures (sequence of (publisher M/B, document, version rank, empty/non-empty)) that contain at least one background publish out of canonical position (after a later edit of the same document was handled, or before the main thread's own publish of that version).".into();
